@@ -360,13 +360,13 @@ structure FullReply (α : Type) where
   metadata : Option (List (SM.Y × SM.Y))
   servings : Option (Option (List Nat))
 
-/-- the reply of a parser with environment `(env, fe)` to a request -/
-def fullReplyOf (env : Env) (fe : FM.Env α) (x : AnalysisResult α) : FullReply α :=
+/-- a result of the fold as the caller sees it, `fe` = what `process_frontmatter` depends on -/
+def fullReplyOf (fe : FM.Env α) (x : AnalysisResult α) : FullReply α :=
   ⟨x, FM.fullDiags fe x, x.output.map (FM.fullMetadata fe), x.output.map (FM.fullServings fe)⟩
 
 def fullReply (env : Env) (fe : FM.Env α) : Req → FullReply α
-  | .parse x => fullReplyOf env fe (parseRecipe env x)
-  | .parseMeta x => fullReplyOf env fe (parseMetadata env x)
+  | .parse x => fullReplyOf fe (parseRecipe env x)
+  | .parseMeta x => fullReplyOf fe (parseMetadata env x)
 
 /-- a process: its parser instances and the process-wide lazily built table -/
 structure Process (α : Type) where
